@@ -491,6 +491,13 @@ class PPO(RLAlgorithm):
                 if approx_kl > self.target_kl:
                     break
 
+        # The critic holds a detached copy of the actor's encoder: bring it up to date
+        # with the weights that were just trained
+        if self.share_encoders and all(
+            isinstance(net, EvolvableNetwork) for net in [self.actor, self.critic]
+        ):
+            self.share_encoder_parameters()
+
         mean_loss /= num_samples * self.update_epochs
         return mean_loss
 
